@@ -153,11 +153,20 @@ def one_fault(rep, drv, contents, ci, seed, case_dir, src_root, dst_root, out_ro
             elif differed and d["mtime"] != s["mtime"]: wrong.append((rel, "mtime"))
         elif links == "p":
             if d is None or d["k"] != "l" or d["text"] != s["text"]: wrong.append((rel, "link"))
+    probe_case = False
     if rc == 0 and wrong:
         kinds = sorted({k for _, k in wrong})
-        rep.oracle_fail("C10/exit-zero-but-" + "+".join(kinds) + "-wrong", f"exit 0 under {faults} but {wrong[:3]} do not satisfy C01's postcondition", desc)
+        # a type conflict (non-directory at the path of a source directory, directory at the path of a source file) whose
+        # *probe* failed: the planner asks `metadata()` for the kind and reads an error as "nothing to object to"
+        conflict = lambda rel: (pre_dst.get(rel) is not None and pre_src[rel]["k"] in ("d", "f") and pre_dst[rel]["k"] != pre_src[rel]["k"]
+                                and (pre_src[rel]["k"] == "d" or pre_dst[rel]["k"] == "d"))
+        probe_case = all(c in ("statx", "newfstatat", "stat", "lstat") for c, _, _ in faults) and all(conflict(r) for r, _ in wrong)
+        if probe_case:
+            rep.oracle_fail("C10/type-conflict-unseen-when-stat-probe-fails", f"exit 0 under {faults}: the kind probe of {wrong[:3]} failed and the conflicting entry was planned as up to date", desc)
+        else:
+            rep.oracle_fail("C10/exit-zero-but-" + "+".join(kinds) + "-wrong", f"exit 0 under {faults} but {wrong[:3]} do not satisfy C01's postcondition", desc)
     if rc == 0 and real_errors: rep.oracle_fail("C10/exit-zero-with-error-events", f"exit 0 but error events {real_errors[:3]}", desc)
-    if summ is not None:
+    if summ is not None and not probe_case:
         # the run reached its end: every wrong entry must be one the report names as failed (itself or an ancestor)
         for rel, kind in wrong:
             if not any(rel == e or rel.startswith(e + "/") or e.startswith(rel + "/") for e in real_errors):
